@@ -241,3 +241,20 @@ pub fn arm_clock(expire_at: u64) -> Rc<ClockState> {
 pub fn some_deadline() -> Option<std::time::Instant> {
     Some(std::time::Instant::now() + std::time::Duration::from_secs(86_400))
 }
+
+// ---- heterogeneous element types ------------------------------------------------------------
+
+/// Old-side element type of the heterogeneous pair: `Hi: PartialEq<Lo>`, and the two derive
+/// `Hash` over different integer widths, so equal items hash differently across the sides.
+#[derive(Hash, PartialEq, Eq, PartialOrd, Ord, Clone, Copy, Debug)]
+pub struct Lo(pub u32);
+
+/// New-side element type of the heterogeneous pair.
+#[derive(Hash, PartialEq, Eq, PartialOrd, Ord, Clone, Copy, Debug)]
+pub struct Hi(pub u64);
+
+impl PartialEq<Lo> for Hi {
+    fn eq(&self, o: &Lo) -> bool {
+        self.0 == o.0 as u64
+    }
+}
